@@ -177,7 +177,8 @@ def main(tier):
     build.ensure_built()
     d = 1 if tier == "quick" else 2
     configs = deviations(DIMS, d)
-    K = producers.SECTION_KINDS + ["commit", "binary_noindex", "binary_noindex_dirs", "conflict3", "conflict2"]
+    K = producers.SECTION_KINDS + ["commit", "binary_noindex", "binary_noindex_dirs", "conflict3", "conflict2",
+                                    "conflict2_unnamed", "conflict2_open"]
     tasks = []
     git_secs = sections_for("git", K, producers.BODY_KINDS)
     small = sections_for("git", K, ["ctx", "minus", "nonl"])
